@@ -159,9 +159,9 @@ func sharedCase(log2 uint64, pids []uint32, nrev int, reps int) input {
 }
 
 func gen(r *hx.Rand, tier string) []json.RawMessage {
-	n := 260
+	n := 200
 	if tier == "thorough" {
-		n = 5000
+		n = 3000
 	}
 	var out []json.RawMessage
 	// directed: >= 3 processes sharing one physical page, reverse lookups repeated in fresh tables
